@@ -1067,6 +1067,18 @@ M('C18', 'TimeDependentCorrelation.resume_run drops the results (original defect
   'tenpy/simulations/time_evolution.py', "        return super().resume_run()\n", "        super().resume_run()\n",
   'RESUME-return')
 
+M('C13', 'OneSiteH.adjoint reads LHeff and RHeff in both directions (original defect)', MC,
+  """            if self.move_right:
+                adj.LHeff = self.LHeff.conj().ireplace_label('wR*', 'wR')
+                tensors.append('LHeff')
+            else:
+                adj.RHeff = self.RHeff.conj().ireplace_label('wL*', 'wL')
+                tensors.append('RHeff')
+""", """            adj.LHeff = self.LHeff.conj().ireplace_label('wR*', 'wR')
+            adj.RHeff = self.RHeff.conj().ireplace_label('wL*', 'wL')
+            tensors.extend(['LHeff', 'RHeff'])
+""", 'HEFF-conditional-attr')
+
 # ---------------------------------------------------------------- C16 / C19
 M('C16', 'GMRES restart: relative residual norm used for normalisation (round-3 seed b)', KRY,
   """        self.total_error.append([npc.norm(self.rs[-1]) / self.b_norm])
